@@ -219,6 +219,7 @@ def observe_loader_case(case, workdir):
                 if ref != again[j]:
                     direct.append(f'{loader.__name__}: document {j} through the shared default factories differs from a load with fresh factories')
         direct += onto_history(case['docs'][0], workdir)
+        direct += same_options_object(case['docs'], workdir)
         hpo = hpotk.load_minimal_ontology(paths[0])
         hl = SimpleHpoaDiseaseLoader(hpo)
         hp = []
@@ -265,6 +266,40 @@ def observe_loader_case(case, workdir):
         for p in paths:
             os.remove(p)
     return {'direct': direct, 'hpoa_table': table}
+
+
+def same_options_object(docs, workdir):
+    """one mutable set object handed in as prefixes_of_interest for several loads and edited by the caller in between: every
+    load must give what a load with a fresh, equal set gives"""
+    g0 = json.loads(json.dumps(docs[0]))['graphs'][0]
+    g1 = json.loads(json.dumps(docs[-1]).replace('HP_', 'MP_').replace('HP:', 'MP:'))['graphs'][0]
+    doc = {'graphs': [{'id': 'two', 'meta': {}, 'nodes': g0['nodes'] + g1['nodes'], 'edges': g0['edges'] + g1['edges']}]}
+    p = os.path.join(workdir, 'two%d.json' % os.getpid())
+    with open(p, 'w', encoding='utf-8') as fh:
+        json.dump(doc, fh)
+    problems = []
+    try:
+        for loader in (hpotk.load_minimal_ontology, hpotk.load_ontology):
+            prefixes = {'HP'}
+            got, asked = [], []
+            for edit in (lambda s: None, lambda s: s.add('MP'), lambda s: s.discard('HP'), lambda s: s.add('HP')):
+                edit(prefixes)                    # nothing else is loaded between these loads
+                asked.append(sorted(prefixes))
+                try:
+                    got.append(canon_onto(loader(p, prefixes_of_interest=prefixes)))
+                except Exception as e:
+                    got.append('raised ' + exn_name(e))
+            for step, (want, g) in enumerate(zip(asked, got)):
+                try:
+                    ref = canon_onto(loader(p, prefixes_of_interest=set(want)))
+                except Exception as e:
+                    ref = 'raised ' + exn_name(e)
+                if g != ref:
+                    problems.append(f'{loader.__name__}: a document loads differently with the caller\'s own prefix set {want} (edited between the loads, step {step}) than with a fresh equal set')
+                    break
+    finally:
+        os.remove(p)
+    return problems
 
 
 def run_onto_query(o, q):
